@@ -34,7 +34,9 @@ TYPE_RE = re.compile(r'^(u?int\d*|bytes\d+|u?fixed\d+x\d+)$')
 def rename_identifiers(src, suffix):
     """append `suffix` to every identifier that is not a keyword / builtin / member name (after '.') and is not
     directly followed by '(' (function, modifier, event, error names and calls keep their names, so that different
-    items DO share function names - only variable-like names, hence all state-variable names, become item-specific)"""
+    items DO share function names) and does not start with a capital letter (type, contract, struct, enum names keep their
+    names, so that an item can refer to a type another item declares) - only variable-like names, hence the
+    state-variable names of the generators, become item-specific"""
     toks = sl.lex(src)
     b = src.encode('utf-8')
     out = []
@@ -45,6 +47,7 @@ def rename_identifiers(src, suffix):
         t = text
         nxt = toks[i + 1][1] if i + 1 < len(toks) else None
         if kind == 'ident' and text not in KEYWORDS and not TYPE_RE.match(text) and prev != '.' and nxt != '(' \
+                and not text[0].isupper() \
                 and prev not in ('function', 'modifier', 'event', 'error', 'contract', 'library', 'interface', 'struct', 'enum'):
             t = text + suffix
         out.append(t.encode('utf-8'))
@@ -141,7 +144,7 @@ def run_impl_dir(ctx, srcs, tag):
     os.makedirs(wd)
     for i, s in enumerate(srcs):
         open(os.path.join(wd, '%06d.sol' % i), 'w', encoding='utf-8', newline='').write(s)
-    rc, out = vlib.sh([ctx.harness, 'prog', wd, 'nodump'], timeout=3000)
+    rc, out = vlib.run_prog(ctx.harness, wd, ['nodump'])
     if rc != 0:
         raise vlib.BuildError('harness failed: ' + out[-1000:])
     res = [vlib.parse_res(open(os.path.join(wd, '%06d.res' % i), encoding='utf-8').read()) for i in range(len(srcs))]
@@ -183,6 +186,12 @@ def build_files(ctx):
         'library Late { function e(uint amount) internal { require(amount > 1, "this message is definitely longer than thirty-two bytes"); } }\n',
         'contract First { struct Order { uint128 a; uint256 b; uint128 c; } }\npragma solidity 0.7.6;\ncontract Second { struct Order { uint128 a; uint128 c; uint256 b; } '
         'function g(uint z) public { require(z > 0, "this message is definitely longer than thirty-two bytes"); } }\n',
+        'pragma solidity ^0.8.4;\nenum Side { Buy, Sell }\nstruct Order { Side side; uint256 price; Side closing; }\n'
+        'contract Book { enum Kind { A, B } struct Slot { Kind k; uint256 v; Kind j; } Side s; uint256 t; Side u; }\nstruct Late { Kind a; uint256 b; Kind c; }\n',
+        'pragma solidity ^0.8.10;\nlibrary Doc {\n  // ' + '\u4ee3\u5e01\u5408\u7ea6' * 30 + '\n  // ' + '\u00e4\u00f6\u00fc\u00df' * 40 + '\n  function id(uint a) internal pure returns (uint) { return a; }\n}\n'
+        'contract After {\n  uint x;\n  address o;\n  function f(uint a) public {\n    x = a + 1;\n    if (a >= 2) {\n      x = a * 4;\n    }\n    ++x;\n  }\n  function k() external {\n    selfdestruct(payable(o));\n  }\n}\n',
+        'pragma solidity 0.7.6;\ncontract Base { using SafeMath for uint256; uint b0; }\ncontract Reg { address registrar; }\ncontract Vault { uint256 total; uint64 lastUpdate; }\n'
+        'interface I { }\ncontract W { bool w1; }\ncontract V2 { uint256 t2; bool u2; }\n',
         'pragma solidity ^0.8.4;\ncontract G2 { function kill() external { selfdestruct(payable(address(0))); } }\n'
         'contract G1 { address o1; modifier onlyOwner() { require(msg.sender == o1); _; } function kill() external onlyOwner { selfdestruct(payable(o1)); } }\n',
     ]
